@@ -6,6 +6,10 @@ func init() {
 	register(&propDef{id: "C13", run: runC13, controls: controlsC13})
 	register(&propDef{id: "C14", run: runC14, controls: func(cp *Prog, r *Report) {
 		expectControl(r, "R-INV", func(cr *Report) { controlsInv(cp, cr) }, "Obj.cache/reset()/(*cache.Obj).SetPpemBad/ppem", "Obj.cache/reset()/(*cache.Obj).SetScaleBad/scale", "Obj.cand/built = false/(*cache.Obj).AddBad/db")
+		expectControl(r, "R-SCRATCH", func(cr *Report) {
+			ruleScratchReset(cp, cr, "cache", "matcher", "scratch", "reset", 2)
+			ruleScratchReset(cp, cr, "cache", "matcher", "pool", "reset", 1)
+		}, "cache.selectBad(c)")
 	}})
 }
 
@@ -122,6 +126,9 @@ func runC14(p *Prog, r *Report) {
 	r.Explain = append(r.Explain, "R-INV on FontMap: every writer of a field read by ResolveFace's miss path (other than the key components query/script) clears the rune LRU, and every writer of a field read by buildCandidates resets built, on all paths, up to the exported API.")
 	ruleInv(p, r, invFontMapLRU())
 	ruleInv(p, r, invFontMapCandidates())
+	r.Explain = append(r.Explain, "R-SCRATCH: R-INV exempts FontMap.cribleBuffer and FontMap.footprintsBuffer as scratch storage 'reset by each selection'; that claim is checked: every function that receives one of them as an argument calls its reset method on it before any other use of it, on every path, or only hands it to a function that does (or drops it for a fresh value).")
+	ruleScratchReset(p, r, "fontscan", "FontMap", "cribleBuffer", "reset", 2)
+	ruleScratchReset(p, r, "fontscan", "FontMap", "footprintsBuffer", "reset", 2)
 	r.Explain = append(r.Explain,
 		"R-KEY/hash: the rune LRU key hashes the query families; runeLRU.Get returns a hit only on the equal edge of an exact comparison of those families.",
 		"R-STEPS: on ResolveFace's miss path buildCandidates runs first and the four documented searches (exact families, fallbacks, manual fonts, script coverage) occur in that order on every path, each returning the face it finds before a later step; every path of buildCandidates that marks the candidates as built has run the substitution pass, the user-font pass and the aspect narrowing.")
